@@ -316,6 +316,8 @@ def main(argv):
             c.broken.append("build of the repo working tree failed: " + blog[-800:])
             return c.finish(rule="build failed")
         c.proofs()
+        if c.tier == "thorough":
+            coqchk(c, ["PP.Props.Properties_C03"])
         drv, dlog = build_driver("C03")
         vfio = os.path.join(build_dir(), "hx", "libvfio.so")
         wrapper = os.path.join(SCRATCH, "hx_sysio_vfio.sh")
